@@ -203,6 +203,83 @@ func ruleTimeoutApplied(r *Run) {
 		}
 	}
 	r.check(inChain, "(*Mux).serveGRPC/timeout-in-handler-context", wt.Pos(), "the handler's context descends from the WithTimeout context", "the WithTimeout context is created but the handler's context does not descend from it")
+	// … and stays in it: every call made after the WithTimeout whose context result flows into the handler's
+	// context is itself given a context that descends from the WithTimeout one (a helper that re-derives "the"
+	// context from r.Context() silently drops the deadline)
+	{
+		wtCtx := extractOf(wt, 0)
+		var chainCalls []*ssa.Call
+		seenV := map[ssa.Value]bool{}
+		var chain func(v ssa.Value, d int)
+		chain = func(v ssa.Value, d int) {
+			if d > 12 {
+				return
+			}
+			for _, o := range p.origins(v, originOpts{local: true}) {
+				if seenV[o] {
+					continue
+				}
+				seenV[o] = true
+				var c *ssa.Call
+				switch x := o.(type) {
+				case *ssa.Call:
+					c = x
+				case *ssa.Extract:
+					c, _ = x.Tuple.(*ssa.Call)
+				}
+				if c == nil || c == wt {
+					continue
+				}
+				chainCalls = append(chainCalls, c)
+				for _, a := range c.Call.Args {
+					if isContextType(a.Type()) {
+						chain(a, d+1)
+					}
+				}
+				if c.Call.IsInvoke() && isContextType(c.Call.Value.Type()) {
+					chain(c.Call.Value, d+1)
+				}
+			}
+		}
+		for _, st := range p.storesToField(nil, "streamGRPC", "ctx") {
+			if st.Parent() == fn {
+				chain(st.Val, 0)
+			}
+		}
+		descends := func(v ssa.Value) bool {
+			if wtCtx == nil {
+				return false
+			}
+			for _, a := range p.ctxAncestors(v) {
+				if a == wtCtx {
+					return true
+				}
+			}
+			return false
+		}
+		kept := true
+		for _, c := range chainCalls {
+			if c.Parent() != fn {
+				continue
+			}
+			if w, _ := (pathQuery{fn: fn, start: wt, target: func(x ssa.Instruction) bool { return x == ssa.Instruction(c) }}).find(); w == nil {
+				continue
+			}
+			ok := false
+			for _, a := range c.Call.Args {
+				if isContextType(a.Type()) && descends(a) {
+					ok = true
+				}
+			}
+			if !ok {
+				kept = false
+				r.bad("(*Mux).serveGRPC/timeout-kept", c.Pos(), "%s runs after the timeout was installed and supplies (part of) the handler's context, but is not given a context that descends from the WithTimeout one: on that path the handler's context is re-derived without the client's deadline", shortName(calleeName(c)))
+			}
+		}
+		if kept {
+			r.ok("(*Mux).serveGRPC/timeout-kept", wt.Pos(), "every later step of the handler context's derivation starts from a context that carries the timeout")
+		}
+	}
 	// the parent of WithTimeout is the request-derived context
 	good := true
 	for _, l := range p.ctxLeaves(wt.Call.Args[0]) {
